@@ -50,11 +50,16 @@ ENGINES["relay"] = {
     "test": "TestSimC05",
     "instrument": [
         {"pkg": "component/sniffing", "files": ["sniffer.go", "conn_sniffer.go"]},
-        {"pkg": "control", "files": ["tcp.go", "tcp_relay_core.go", "tcp_copy_engine.go", "tcp_copy_gather_linux.go", "tcp_sniff_policy.go"]},
+        {"pkg": "control", "files": ["tcp.go", "tcp_relay_core.go", "tcp_copy_engine.go", "tcp_copy_gather_linux.go", "tcp_sniff_policy.go"],
+         # seam: simulated streams answer the TIOCINQ question of the gather write (harness/control/relay_hooks.go.txt)
+         "replace": ["relayGatherWriteTCPConn^=if tc, ok := verifSimTCPConn(conn); ok { return tc, true }",
+                     "tcpConnHasPendingReadData^=if p, ok := verifSimPending(conn); ok { return p, nil }",
+                     "relayGatherWriteTo^=defer verifNoTCPScope()()"]},
     ],
+    "extra_files": {"control/zz_verif_relay_hooks.go": "harness/control/relay_hooks.go.txt"},
     "harness": ["harness/control/relay_test.go", "harness/control/health_shared_test.go"],
     "quick_secs": 40, "thorough_secs": 500,
-    "probes": ["relay.name-sniffed", "relay.idle-gap-survived", "relay.port53", "relay.server-first", "relay.data-after-client-halfclose"],
+    "probes": ["relay.name-sniffed", "relay.idle-gap-survived", "relay.port53", "relay.server-first", "relay.data-after-client-halfclose", "relay.tioc-inq-asked", "relay.early-read-with-prefix", "relay.payloadless-client-fin"],
 }
 
 ENGINES["quicsniff"] = {
